@@ -670,6 +670,8 @@ def subscript(interp, base: V, idx: V, node) -> Optional[V]:
     if isinstance(base, DictV):
         if isinstance(idx, Const) and idx.v in base.d and dict_stores_exact(base):
             return base.d[idx.v]
+        if isinstance(idx, TupleV) and dict_key(idx) is not None and dict_key(idx) in base.d and dict_stores_exact(base):
+            return base.d[dict_key(idx)]
         if isinstance(idx, Const) and not base.stores and getattr(base, "complete", False) and idx.v not in base.d:
             interp.raises.append(("KeyError", interp.guards(), f"{interp.where()}: key {idx.v!r} is not in the table"))
             return Top("missing dictionary key")
@@ -705,10 +707,24 @@ def _slice_bounds(idx: Term):
     return f(lo), f(hi), f(st)
 
 
+def dict_key(idx):
+    """hashable dictionary key of a constant, or of a tuple of constants / closed numbers (memo keys like (name, flag, factor)); None if
+    the key is not closed"""
+    if isinstance(idx, Const):
+        try:
+            hash(idx.v)
+            return idx.v
+        except TypeError:
+            return None
+    if isinstance(idx, TupleV) and idx.items and all(isinstance(x, (Const, Num)) for x in idx.items) and not contains_top(idx):
+        return ("<tuple>", vkey(idx))
+    return None
+
+
 def dict_stores_exact(d) -> bool:
-    """every store into the dictionary so far had a constant key and was executed unconditionally (no undecided guard, no loop):
+    """every store into the dictionary so far had a closed key and was executed unconditionally (no undecided guard, no loop):
     the key -> value table kept in `d.d` is then the exact content"""
-    return all(isinstance(i_, Const) and not any(getattr(f_, "kind", None) in ("loop", "guard") for f_ in fr_)
+    return all(dict_key(i_) is not None and not any(getattr(f_, "kind", None) in ("loop", "guard") for f_ in fr_)
                for (fr_, i_, v_, a_, st_) in d.stores)
 
 
